@@ -7,6 +7,7 @@ import (
 	"github.com/elk-language/elk/parser/ast"
 	"github.com/elk-language/elk/token"
 	"github.com/elk-language/elk/types"
+	"github.com/elk-language/elk/value"
 )
 
 type assumption uint8
@@ -488,9 +489,19 @@ func (c *Checker) narrowLocal(name string, localType types.Type, assume assumpti
 		return
 	}
 
-	if localCtx.env != c.currentLocalEnv() && c.mode != mutateLocalsInNarrowing {
-		local = local.createShadow()
-		c.addLocal(name, local)
+	if localCtx.env != c.currentLocalEnv() {
+		if c.mode != mutateLocalsInNarrowing {
+			local = local.createShadow()
+			c.addLocal(name, local)
+		} else if target := c.fallthroughLocalEnv(); target != nil && localCtx.env.index < target.index {
+			// The other branch of the conditional never completes (return, break, continue, throw),
+			// so the narrowing holds for the code that follows the conditional.
+			// That code ends with the block that contains the conditional:
+			// a local declared outside of this block gets narrowed
+			// by a shadow that lives in the block, it must not be mutated in place.
+			local = local.createShadow()
+			target.addLocal(value.ToSymbol(name), local)
+		}
 	}
 	switch assume {
 	case assumptionTruthy:
@@ -504,6 +515,17 @@ func (c *Checker) narrowLocal(name string, localType types.Type, assume assumpti
 	case assumptionNotNil:
 		local.typ = c.ToNonNilable(localType)
 	}
+}
+
+// The local environment of the block that contains the conditional expression
+// whose branch is being narrowed in the `mutateLocalsInNarrowing` mode.
+// The two innermost environments are the conditional environment of the branch
+// and the environment of the conditional expression itself.
+func (c *Checker) fallthroughLocalEnv() *localEnvironment {
+	if len(c.localEnvs) < 3 {
+		return nil
+	}
+	return c.localEnvs[len(c.localEnvs)-3]
 }
 
 func (c *Checker) ToNonNilable(typ types.Type) types.Type {
